@@ -46,7 +46,7 @@ def main():
         only = set(args[args.index("--only") + 1].split(","))
     if "--base" in args:
         base = args[args.index("--base") + 1]
-    names = sorted(n for n in os.listdir(os.path.join(HERE, "seeded")) if os.path.isdir(os.path.join(HERE, "seeded", n)))
+    names = sorted(n for n in os.listdir(os.path.join(HERE, "seeded")) if os.path.isfile(os.path.join(HERE, "seeded", n, "meta.json")))
     if only:
         names = [n for n in names if n in only]
     jobs = max(2, 16 // par)
